@@ -37,6 +37,17 @@ TRUSTED = ["Model/C17_Model.v is hand-written; tied to boltons.dictutils.OneToOn
            "instance independence (no aliasing) is outside the pure model: it is checked on the code by observing "
            "every instance after every step and by writing junk into argument containers after each call"]
 
+def translators(repo):
+    """(T): table of dict's callable attributes vs FrozenDict, regenerated from the source (fail closed)."""
+    import os
+    import sys
+    here = os.path.join(os.path.dirname(os.path.abspath(__file__)), "translators")
+    if here not in sys.path:
+        sys.path.insert(0, here)
+    import c17_frozen
+    return {"C17_Gen": c17_frozen.generate(repo)}
+
+
 # --------------------------------------------------------------------------
 # tokens
 # --------------------------------------------------------------------------
